@@ -366,6 +366,17 @@ def rule_frame(ctx, repo):
     ok = rets and all('match' in f and ca(new, n.value) in (built, built2) for k, n, f in rets)
     r.check(bool(ok), 'reader:checksum-dominates', new.site, 'an object is built only after the checksum matched, from (payload, version byte)', 'an object can be built without the checksum comparison, or from other values')
     bad = [(k, n, f) for k, n, f in mf.exits if 'mismatch' in f]
+    if not bad:
+        # the comparison sits inside a larger test (`len(k) < 4 or check0 != check1`): the branch that is taken whenever
+        # the checksums differ is the one whose other side knows they match
+        for n_ in walk_no_nested(new.node):
+            if isinstance(n_, ast.If) and any(sides(c_) for c_ in ast.walk(n_.test) if isinstance(c_, ast.Compare)):
+                ft_, ff_ = mf.cond_facts(n_.test)
+                arm = n_.body if 'match' in ff_ else (n_.orelse if 'match' in ft_ else None)
+                if arm and flow.always_raises(arm):
+                    for x_ in arm:
+                        if isinstance(x_, ast.Raise):
+                            bad.append(('raise', x_, frozenset(['mismatch'])))
     ok = bad and all(k == 'raise' and isinstance(n.exc, ast.Call) and norm(n.exc.func) == 'Base58ChecksumError' for k, n, f in bad)
     r.check(bool(ok), 'reader:checksum-error', new.site, 'mismatch raises Base58ChecksumError', 'a checksum mismatch does not raise Base58ChecksumError')
     # memoisation: the value of a CBase58Data as bytes does not include nVersion, so a cache keyed by the object
@@ -402,8 +413,17 @@ def rule_errors(ctx, repo, eng):
 
     def version_byte(e):
         new = ci.methods['__new__']
-        calls = [norm(c) for c in common.iter_calls(new.node) if norm(c.func) == 'cls.from_bytes']
-        return calls == ['cls.from_bytes(data, verbyte[0])'], 'the version passed is one byte of the decoded string (0..255)'
+        calls = [c for c in common.iter_calls(new.node) if norm(c.func) == 'cls.from_bytes']
+        if len(calls) != 1 or len(calls[0].args) != 2:
+            return False, ''
+        v = common.resolved(new, calls[0].args[1], repo)
+        # one element of the decoded byte string (possibly through slices of it): an int in 0..255
+        ok = isinstance(v, ast.Subscript) and not isinstance(v.slice, ast.Slice)
+        base_ = v.value if ok else None
+        while isinstance(base_, ast.Subscript) and isinstance(base_.slice, ast.Slice):
+            base_ = base_.value
+        ok = ok and isinstance(base_, ast.Call) and norm(base_.func) in ('decode', 'bitcoin.base58.decode')
+        return bool(ok), 'the version passed is one byte of the decoded string (0..255)'
     just = {(B + 'CBase58Data.from_bytes', "ValueError('nVersion must be in range 0 to 255"): version_byte}
     rule_entry(r, repo, ee, ci.methods['__new__'], [base], 'CBase58Data(text)', ctx=ci, justified=just)
     rule_entry(r, repo, ee, repo.get_function(B + 'decode'), [base], 'decode')
